@@ -440,3 +440,10 @@ add("pball-pull-back-by-the-excess-distance", F, ["C15"], "dfols/util.py", "    
     "    d = x - c\n    dist = np.linalg.norm(d)\n    return x - (max(dist - r, 0.0) / dist) * d\n", "C15-2d")
 add("s-pball-with-named-distance", S, ["C15", "C13"], "dfols/util.py", "    return c + (r/np.max([np.linalg.norm(x-c),r]))*(x-c)\n",
     "    d = x - c\n    dist = np.linalg.norm(d)\n    return c + (r / max(dist, r)) * d\n")
+
+# ---- C07-14: Python-float division by a root that can vanish (pre-repair form of F07i)
+add("precondition-scale-not-protected-against-coincident-points", F, ["C07"], "dfols/model.py",
+    "            if approx_delta == 0.0:\n                approx_delta = 1.0  # all points coincide (to rounding): nothing to scale by; the singular system is reported by the solve\n", "", "C07-14")
+add("s-precondition-scale-floored", S, ["C07", "C16"], "dfols/model.py",
+    "            if approx_delta == 0.0:\n                approx_delta = 1.0  # all points coincide (to rounding): nothing to scale by; the singular system is reported by the solve\n",
+    "            if not approx_delta > 0.0:\n                approx_delta = 1.0\n")
